@@ -793,8 +793,14 @@ where
                             #[cfg(transparencies_stretto_verif)]
                             crate::verif::counters::inc(&crate::verif::counters::HANDLER_ERRORS);
                         }
+                        #[cfg(transparencies_stretto_verif)]
+                        crate::verif::sched::point("clear:after_drain");
                         self.policy.clear();
+                        #[cfg(transparencies_stretto_verif)]
+                        crate::verif::sched::point("clear:after_policy_clear");
                         self.store.clear();
+                        #[cfg(transparencies_stretto_verif)]
+                        crate::verif::sched::point("clear:after_store_clear");
                         self.metrics.clear();
                         #[cfg(transparencies_stretto_verif)]
                         crate::verif::counters::inc(&crate::verif::counters::CLEARS_DONE);
